@@ -21,7 +21,7 @@ def run(ctx):
         g3 = common.harness_gen(harness, ["grid", 2, 1, 3])
         ngrid += len(g3)
         lines += g3
-    nrand = 40000 if ctx.quick else 400000
+    nrand = 40000 if ctx.quick else 2000000
     seeds = [ctx.seed] if ctx.quick else [ctx.seed, ctx.seed + 1000, ctx.seed + 2000]
     for s in seeds:
         lines += common.harness_gen(harness, ["rand", s, nrand // len(seeds)])
